@@ -57,7 +57,7 @@ type segFile struct {
 }
 
 type querySpec struct {
-	Name string // matchall filter_eq filter_range stats_by stats_tree stats_all sort
+	Name string // matchall filter_eq filter_range filter_cmi_* filter_raw_* stats_by stats_tree stats_all sort
 	Text string
 }
 
@@ -228,6 +228,10 @@ func querySet(dmgNum map[int64]int64, dmgGrp map[int64]string) []querySpec {
 		// answered from the star tree (.strl/.strm) when the segment has one; the reader clears a
 		// 300 MB buffer per query, so this one is run for a part of the faults only (runsTree)
 		{"stats_tree", "* | stats count, sum(num), min(num), max(num) by seg"},
+		// (appended: positions 0 and 5 of this list are used by index) never pre-run; != and wildcard filters cannot use the dictionary fast path of a block and fall
+		// back to the record-by-record search, which touches the same column block a second time
+		{"filter_raw_ne", "grp!=" + dmgGrp[vids[0]]},
+		{"filter_raw_wild", "grp=*" + g2[len(g2)-1:]},
 	}
 }
 
@@ -525,7 +529,7 @@ func (e *envT) ingest() error {
 	// persistent-query results (.pqmr) and a star tree (.strl/.strm) for them in every new segment
 	for i := 0; i < 2; i++ {
 		for _, q := range querySet(dn, dg) {
-			if q.Name == "stats_by" || strings.HasPrefix(q.Name, "filter_cmi") {
+			if q.Name == "stats_by" || strings.HasPrefix(q.Name, "filter_cmi") || strings.HasPrefix(q.Name, "filter_raw") {
 				continue // stay queries that have to read the micro indexes / column files
 			}
 			if _, err := c.Search(sut.Query{Index: idxName, Text: q.Text, Start: lo - 1, End: hi + 1, Size: 500}); err != nil {
